@@ -128,9 +128,21 @@ static int in_nest;	/* > 0 while a callback runs a nested parse of another conte
 
 static void errfunc_to(cfg_t *cfg, const char *fmt, const char *tag);
 
+/* an application's error function formats the message it is handed: a format that does not fit the arguments (text of the
+ * configuration taken for a format) reads or writes through whatever lies there */
+static void format_like_an_app(const char *fmt, va_list ap)
+{
+	static char msg[8192];
+	va_list ap2;
+
+	va_copy(ap2, ap);
+	vsnprintf(msg, sizeof msg, fmt, ap2);
+	va_end(ap2);
+}
+
 static void errfunc(cfg_t *cfg, const char *fmt, va_list ap)
 {
-	(void)ap;
+	format_like_an_app(fmt, ap);
 	errfunc_to(cfg, fmt, "G ");
 }
 
@@ -138,7 +150,7 @@ static void errfunc(cfg_t *cfg, const char *fmt, va_list ap)
  * a later operation on it - also from inside sections that earlier parses entered or created - goes to the new one */
 static void errfunc2(cfg_t *cfg, const char *fmt, va_list ap)
 {
-	(void)ap;
+	format_like_an_app(fmt, ap);
 	errfunc_to(cfg, fmt, "G2 ");
 }
 
